@@ -18,7 +18,7 @@ def validate(ctx, module, cfg_text, path, name, keyfn, what="trace",
     states = 0
     for attempt in range(max_rejects + 1):
         r = tlc(ctx, module, cfg_text % cur_path, "%s_%d" % (name, attempt),
-                workers=1, timeout=1500)
+                workers=1, timeout=3000)
         states += r["distinct"]
         if r["ok"]:
             break
